@@ -19,14 +19,15 @@ IsEv(name) == l <= NEv /\ Tr[l].e = name
 Step(v) == /\ l' = l + 1
            /\ viol' = Cap(viol \o v)
            /\ PubResult(viol', l')
-TInit == l = 1 /\ inj = << -9, -9 >> /\ viol = << >> /\ PubResult(<< >>, 1)
+TInit == l = 1 /\ inj = << -9, -9, 0 >> /\ viol = << >> /\ PubResult(<< >>, 1)
 
 TInj == /\ IsEv("StInj")
-        /\ inj' = << Tr[l].aes, Tr[l].sha >>
+        /\ inj' = << Tr[l].aes, Tr[l].sha, IF "fault" \in DOMAIN Tr[l] THEN Tr[l].fault ELSE 0 >>
         /\ Step(<< >>)
 
 \* what a run of the self-tests reports under the current injection (-9 = the real tests, which pass)
-StPass == (inj[1] \in {-9, 0}) /\ (inj[2] \in {-9, 0})
+\* inj[3] # 0: the real tests run on top of a primitive that returns a corrupted result: they must fail
+StPass == (inj[1] \in {-9, 0}) /\ (inj[2] \in {-9, 0}) /\ inj[3] = 0
 
 TGate ==
   /\ IsEv("Gate") /\ UNCHANGED inj
